@@ -26,7 +26,7 @@ BUDGET = {'quick': 25, 'thorough': 300}
 BLOCK = 10
 STREAM_ORDER = ['scen', 'chart', 'cfg']
 RULE = ('a generated probe chart (half of them also fire events with notify()) and a generated feature file (3-6 scenarios per execute_bdd call): each scenario is a history of predefined '
-        'given/when steps - send event (plain, inline parameter, parameter table), wait, do nothing, repeat "...", reproduce "..." -, a given-step now and then among the when-steps of a block, followed by '
+        'given/when steps - send event (plain, inline parameter, parameter table, both at once), wait, do nothing, repeat "...", reproduce "..." -, a given-step now and then among the when-steps of a block, followed by '
         'assertions known to be true and one assertion under test drawn true or false alike from every predefined then-step in the documented (parameter values include falsy ones: 0, False, None, empty string and list) '
         'spelling. The feature is run in-process through execute_bdd with behave JSON formatter; every scenario is evaluated independently on a '
         'plain Interpreter (queue / advance / execute() per primitive step; the monitored block is the macro steps of the when-steps since the '
@@ -57,7 +57,7 @@ def gen_action(st, sp, events, scen_names, allow_compound=True, live=None):
     """one given/when step: (text lines, primitive actions)"""
     if live and st.flag(3, 4):
         events = live           # prefer events some active state reacts to
-    kind = st.weighted([('send', 5), ('send_inline', 3), ('send_table', 3), ('wait', 2), ('nothing', 1),
+    kind = st.weighted([('send', 5), ('send_inline', 3), ('send_table', 3), ('send_both', 2), ('wait', 2), ('nothing', 1),
                         ('repeat', 2 if allow_compound else 0), ('reproduce', 2 if (allow_compound and scen_names) else 0)])
     if kind == 'send':
         n = st.pick(events)
@@ -74,15 +74,25 @@ def gen_action(st, sp, events, scen_names, allow_compound=True, live=None):
             rows.append(('k', repr(st.pick(['x', 'y z']))))
         lines = ['I send event %s' % n, '  | parameter | value |'] + ['  | %s | %s |' % r for r in rows]
         return lines, [('send', n, {k: eval(v) for k, v in rows})], kind
+    if kind == 'send_both':
+        # both documented ways at once: one parameter inline, more in a table
+        n = st.pick(events)
+        u = st.int(1, 9)
+        rows = [('k', repr(st.pick(['x', 'y z'])))]
+        if st.flag(1, 2):
+            rows.append(('m', repr(st.int(0, 3))))
+        lines = ['I send event %s with uid=%d' % (n, u), '  | parameter | value |'] + ['  | %s | %s |' % r for r in rows]
+        return lines, [('send', n, dict({k: eval(v) for k, v in rows}, uid=u))], kind
     if kind == 'wait':
         s = st.pick([1, 2, 5, 0.5])
         return ['I wait %g second%s' % (s, '' if s == 1 else 's')], [('wait', s)], kind
     if kind == 'nothing':
         return ['I do nothing'], [], kind
     if kind == 'repeat':
-        lines, prim, _ = gen_action(st, sp, events, scen_names, allow_compound=False)
-        if len(lines) > 1:      # a table cannot be quoted inside the repeat step
-            lines, prim = lines[:1], [(p[0], p[1], {}) if p[0] == 'send' else p for p in prim]
+        lines, prim, sub = gen_action(st, sp, events, scen_names, allow_compound=False)
+        if len(lines) > 1:      # a table cannot be quoted inside the repeat step (an inline parameter stays)
+            keep = ('uid',) if sub == 'send_both' else ()
+            lines, prim = lines[:1], [(p[0], p[1], {k: v for k, v in p[2].items() if k in keep}) if p[0] == 'send' else p for p in prim]
         k = st.int(2, 3)
         return ['I repeat "%s" %d times' % (lines[0], k)], prim * k, kind
     name = st.pick(sorted(scen_names))
